@@ -77,7 +77,8 @@ func nsubstIfTree(s *slip.Scope, tree, rep slip.Object, pc, kc slip.Caller, dept
 	if list, ok := tree.(slip.List); ok {
 		for i, e := range list {
 			if tail, ok2 := e.(slip.Tail); ok2 {
-				list[i] = slip.Tail{Value: nsubstIfTree(s, tail.Value, rep, pc, kc, depth)}
+				// The new cdr can be a list or nil.
+				return list[:i].WithCdr(nsubstIfTree(s, tail.Value, rep, pc, kc, depth))
 			} else {
 				list[i] = nsubstIfTree(s, e, rep, pc, kc, depth)
 			}
